@@ -54,3 +54,11 @@ func VerifCollRange(dt byte, t, k []byte) ([]byte, []byte) {
 }
 
 func VerifExtractTable(key []byte) ([]byte, []byte, error) { return extractTableFromRedisKey(key) }
+
+// VerifPurgeOldCheckpoint runs the real purge on a directory of checkpoint-named sub-directories.
+func VerifPurgeOldCheckpoint(keepNum int, checkpointDir string, latestSnapIndex uint64) {
+	purgeOldCheckpoint(keepNum, checkpointDir, latestSnapIndex)
+}
+
+// VerifSetLatestSnapIndex: what UpdateSnapshotState records (the index of the newest raft snapshot).
+func (r *RockDB) VerifSetLatestSnapIndex(i uint64) { r.SetLatestSnapIndex(i) }
